@@ -1707,6 +1707,118 @@ class SplitCLI(Contract):
                       exc.cls == 'ValueError' and (not any(st.has.values()) or st.order_given))
 
 
+SMC = 'moPepGen/cli/summarize_fasta.py'
+
+
+@register
+class SummarizeCLI(SplitCLI):
+    """summarizeFasta reads its options the way splitFasta does - the i-th --order-source entry gets rank i (a combination as the set of its
+    parts, a duplicate is an error), --group-source 'G:a,b' maps a and b to G - so that both commands rank sources alike under the same
+    options; every GVF is read once for its labels, the internal sources are appended to the order after the GVFs, every given FASTA is
+    loaded once (variant, novel ORF, alternative translation), the transcript -> gene and coding tables of the annotation and the
+    cleavage rule reach count_peptide_source, and the table is written once to the output; only options the real parser defines are read"""
+    path, qualname, props = SMC, 'summarize_fasta', ('C18',)
+    declared_raises = ['ValueError']
+    assumptions = ('external: load_references, open, update_label_map, load_database, count_peptide_source, write_summary_table (the summarizer itself: '
+                   'add_entry / append_order under contract); the annotation iterates N transcripts; no image is requested',)
+
+    def setup(self, I):
+        e = I.e
+        st = types.SimpleNamespace(loaded=[], gvfs=[], split=[], writes=[], order_writes=[], ctor=[], seq=[])
+        dests = parser_dests('moPepGen.cli.summarize_fasta', 'add_subparser_summarize_fasta')
+        st.n_order = e.int('n_order_entries')
+        st.multi = z3.Function('entry_is_a_combination', I_, B_)
+        e.assume(st.n_order >= 1)
+        st.has = {k: e.branch(e.bool(f'{k}_given'), k) for k in ('variant', 'novel', 'alt')}
+        st.fasta = dict(variant_peptides=SymObj('Path18', n='variant') if st.has['variant'] else None,
+                        novel_orf_peptides=SymObj('Path18', n='novel') if st.has['novel'] else None,
+                        alt_translation_peptides=SymObj('Path18', n='alt') if st.has['alt'] else None)
+        st.ngvf = e.int('n_gvf')
+        e.assume(st.ngvf >= 0)
+        zz = lambda i: i if is_z3(i) else z3.IntVal(i)
+        st.gvf_view = FnView(st.ngvf, lambda i: SymObj('Gvf18', i=zz(i)), tag='gvf files')
+        st.order_given = e.branch(e.bool('order_source_given'), 'order given')
+        st.group_given = e.branch(e.bool('group_source_given'), 'group given')
+        st.add_given = False
+        st.rule, st.ignore = SymObj('Rule18'), e.bool('ignore_missing_source')
+        st.out = SymObj('Path18', n='output')
+        known = dict(gvf=st.gvf_view, order_source=_OrderStr(self) if st.order_given else None,
+                     group_source=['Coding:gSNP,gINDEL', 'Alt:SECT'] if st.group_given else None, output_path=st.out, output_image=None,
+                     ignore_missing_source=st.ignore, cleavage_rule=st.rule, plot_log_scale=False, plot_normal_scale=False, **st.fasta)
+        st.args_obj = real_namespace(dests, known)
+        st.N = e.int('n_tx')
+        e.assume(st.N >= 0)
+        st.coding = z3.Function('tx_is_coding', I_, B_)
+        st.tx2gene_writes, st.coding_adds = [], []
+        st.args = [st.args_obj]
+        self._cur = st
+        return st
+
+    @property
+    def models(self):
+        c = self
+        base = super().models
+
+        def inst(reg):
+            for m in base:
+                m(reg)
+            T = lambda I, env, k: []
+            reg.loops_(SMC, 'validate_files', {0: LoopSpec(inv=T)})
+
+            def ctor(I, a, k):
+                c._cur.ctor.append(k)
+                return SymObj('Summarizer18')
+            reg.ctor_('PeptidePoolSummarizer', ctor)
+            log = lambda what: (lambda I, o, a, k: c._cur.seq.append((what, list(a), dict(k))))
+            reg.method_('Summarizer18', 'update_label_map', lambda I, o, a, k: (c._cur.gvfs.append(a[0].fields['path']), c._cur.seq.append(('gvf', list(a), {})))[0])
+            reg.method_('Summarizer18', 'append_order_internal_sources', log('append_order_internal_sources'))
+            reg.method_('Summarizer18', 'load_database', lambda I, o, a, k: (c._cur.loaded.append(a[0].fields['path']), c._cur.seq.append(('load', list(a), {})))[0])
+            reg.method_('Summarizer18', 'count_peptide_source', log('count'))
+            reg.method_('Summarizer18', 'write_summary_table', log('write'))
+            reg.func_(SMC, 'output_context', lambda I, a, k: SymObj('OutHandle18', path=a[0]))
+        return (inst,)
+
+    @property
+    def loops(self):
+        T = lambda I, env, k: []
+        return {0: LoopSpec(inv=T, havoc=self.havoc_tx, on_head=self.head_tx, step=self.step_tx),
+                1: LoopSpec(inv=T, havoc=self.havoc_order, on_head=self.head_order, step=self.step_order),
+                4: LoopSpec(inv=T, havoc=lambda I, env, k: None, on_head=lambda I, env, k: setattr(self._cur, 'gmark', len(self._cur.gvfs)),
+                            step=lambda I, env, k: [('gvf-k-read-once', len(self._cur.gvfs) == self._cur.gmark + 1 and self._cur.gvfs[-1].fields['i'] is not None
+                                                     and z3.is_true(z3.simplify(self._cur.gvfs[-1].fields['i'] == k)))])}
+
+    def post_return(self, I, st, ret):
+        e = I.e
+        want = [v for v in (st.fasta['variant_peptides'], st.fasta['novel_orf_peptides'], st.fasta['alt_translation_peptides']) if v is not None]
+        e.prove('C18/summarize-cli/every-given-fasta-loaded-once-in-the-order-variant-novel-alt', len(st.loaded) == len(want) and all(a is b for a, b in zip(st.loaded, want)))
+        names = [x[0] for x in st.seq]
+        ok = len(st.ctor) == 1 and names.count('count') == 1 and names.count('write') == 1 and names.count('append_order_internal_sources') == 1
+        e.prove('C18/summarize-cli/one-summarizer-counted-once-and-written-once', ok)
+        if not ok:
+            return
+        ia = names.index('append_order_internal_sources')
+        e.prove('C18/summarize-cli/internal-sources-ranked-after-the-gvf-sources-and-before-any-fasta-is-loaded',
+                all(i < ia for i, n in enumerate(names) if n == 'gvf') and all(i > ia for i, n in enumerate(names) if n == 'load'))
+        e.prove('C18/summarize-cli/counted-after-everything-was-loaded-then-written', names.index('count') > max([i for i, n in enumerate(names) if n == 'load'] + [ia])
+                and names.index('write') > names.index('count'))
+        _, a, k = st.seq[names.index('count')]
+        e.prove('C18/summarize-cli/annotation-tables-and-cleavage-rule-reach-count_peptide_source',
+                not a and k.get('tx2gene') is getattr(st, 'tx2gene', k.get('tx2gene')) and k.get('coding_tx') is getattr(st, 'coding_set', k.get('coding_tx')) and k.get('enzyme') is st.rule)
+        ck = st.ctor[0]
+        e.prove('C18/summarize-cli/group-map=member->group', ck.get('group_map') == ({'gSNP': 'Coding', 'gINDEL': 'Coding', 'SECT': 'Alt'} if st.group_given else None))
+        e.prove('C18/summarize-cli/order-passed-to-the-summarizer', isinstance(ck.get('order'), _GhostOrder) if st.order_given else ck.get('order') is None)
+        e.prove('C18/summarize-cli/ignore-missing-source-passed-on', ck.get('ignore_missing_source') is st.ignore)
+        _, wa, wk = st.seq[names.index('write')]
+        e.prove('C18/summarize-cli/table-written-to-the-output-path', len(wa) == 1 and isinstance(wa[0], SymObj) and wa[0].cls == 'OutHandle18' and wa[0].fields['path'] is st.out)
+
+    def post_raise(self, I, st, exc):
+        if exc.cls == 'AttributeError':
+            I.e.prove(f'C18/summarize-cli/every-option-read-is-defined-by-the-parser:{exc.msg}', False)
+        else:
+            I.e.prove('C18/summarize-cli/raise/only-without-any-fasta-or-for-a-duplicate-order-entry',
+                      exc.cls == 'ValueError' and (not any(st.has.values()) or st.order_given))
+
+
 SUM = 'moPepGen/aa/PeptidePoolSummarizer.py'
 
 
